@@ -118,7 +118,8 @@ type LeafParam struct {
 	Opt        bool
 	Soft       bool
 	NamedSlice bool
-	Obj        int // index of the innermost enclosing parameter object (-1 positional)
+	Obj        int   // index of the innermost enclosing parameter object (-1 positional)
+	ObjPath    []int // indices of all enclosing parameter objects, outermost first
 }
 
 // LeafResult is a flattened result in declaration order. Keys lists every
@@ -145,22 +146,22 @@ func (f *Func) ErrIndex() int {
 func (f *Func) LeafParams() []LeafParam {
 	var out []LeafParam
 	nobj := 0
-	var walk func(ps []Param, obj int)
-	walk = func(ps []Param, obj int) {
+	var walk func(ps []Param, obj int, path []int)
+	walk = func(ps []Param, obj int, path []int) {
 		for _, p := range ps {
 			switch p.Kind {
 			case PSingle:
-				out = append(out, LeafParam{Key: Key{T: p.T, Name: p.Name}, Opt: p.Opt, Obj: obj})
+				out = append(out, LeafParam{Key: Key{T: p.T, Name: p.Name}, Opt: p.Opt, Obj: obj, ObjPath: path})
 			case PGroup:
-				out = append(out, LeafParam{Key: Key{T: p.T, Group: p.Group}, Soft: p.Soft, NamedSlice: p.NamedSlice, Obj: obj})
+				out = append(out, LeafParam{Key: Key{T: p.T, Group: p.Group}, Soft: p.Soft, NamedSlice: p.NamedSlice, Obj: obj, ObjPath: path})
 			case PObj:
 				id := nobj
 				nobj++
-				walk(p.Fields, id)
+				walk(p.Fields, id, append(append([]int(nil), path...), id))
 			}
 		}
 	}
-	walk(f.Params, -1)
+	walk(f.Params, -1, nil)
 	return out
 }
 
